@@ -438,6 +438,28 @@ pub struct Pair {
     pub b: G,
 }
 
+/// *Generic position* family (1 draw in 8, chosen by three bits of the first operand's flags): the lattice is
+/// refined 16-fold and every lattice point is moved by a pseudo-random offset of up to 1, 2 or 5 sub-units -
+/// the same lattice point always to the same place, so shared vertices stay shared and rings stay closed,
+/// while vertex-on-edge and collinear coincidences turn into near misses with generic slopes. Validity is
+/// re-decided by the exact model afterwards (`in_relate_domain`).
+pub static GEN_JITTERED: std::sync::atomic::AtomicU64 = std::sync::atomic::AtomicU64::new(0);
+pub fn jitter_sel(flags: u32) -> Option<u64> {
+    if (flags >> 24) & 7 == 0 {
+        Some(crate::engine::splitmix64(flags as u64 ^ 0x6a09e667f3bcc908))
+    } else {
+        None
+    }
+}
+pub fn jitter(g: &G, sel: u64) -> G {
+    let amp = [1i64, 2, 5][(sel % 3) as usize];
+    g.map_coords(&|c| {
+        let h = crate::engine::splitmix64(sel ^ (c.0 as u64).wrapping_mul(0x9E3779B97F4A7C15) ^ (c.1 as u64).wrapping_mul(0xC2B2AE3D27D4EB4F));
+        let (jx, jy) = ((h % (2 * amp as u64 + 1)) as i64 - amp, ((h >> 24) % (2 * amp as u64 + 1)) as i64 - amp);
+        (c.0 * 16 + jx, c.1 * 16 + jy)
+    })
+}
+
 pub fn build_pair(ra: &RawGeom, rb: &RawGeom, g: usize, m: &Mat, far: Option<(i64, i64)>) -> Option<Pair> {
     let a = build_geom(ra, g, &[], None)?;
     let pool = feature_pool(&a);
@@ -445,10 +467,17 @@ pub fn build_pair(ra: &RawGeom, rb: &RawGeom, g: usize, m: &Mat, far: Option<(i6
     if let Some((dx, dy)) = far {
         b = b.map_coords(&|c| (c.0 + dx, c.1 + dy));
     }
-    let a = apply_mat(&a, m);
-    let b = apply_mat(&b, m);
+    let (mut a, mut b) = (apply_mat(&a, m), apply_mat(&b, m));
+    let jit = jitter_sel(ra.flags);
+    if let Some(sel) = jit {
+        a = jitter(&a, sel);
+        b = jitter(&b, sel);
+    }
     if !in_relate_domain(&a) || !in_relate_domain(&b) {
         return None;
+    }
+    if jit.is_some() {
+        GEN_JITTERED.fetch_add(1, std::sync::atomic::Ordering::Relaxed);
     }
     Some(Pair { a, b })
 }
@@ -481,8 +510,15 @@ pub fn pair_strategy() -> impl Strategy<Value = Pair> {
 pub fn geom_strategy() -> impl Strategy<Value = G> {
     (raw_geom(), 1usize..=BOARD, mat_strategy()).prop_filter_map("out of domain", |(r, g, m)| counted((move || {
         let a = build_geom(&r, g, &[], None)?;
-        let a = apply_mat(&a, &m);
+        let mut a = apply_mat(&a, &m);
+        let jit = jitter_sel(r.flags);
+        if let Some(sel) = jit {
+            a = jitter(&a, sel);
+        }
         if in_relate_domain(&a) {
+            if jit.is_some() {
+                GEN_JITTERED.fetch_add(1, std::sync::atomic::Ordering::Relaxed);
+            }
             Some(a)
         } else {
             None
@@ -496,8 +532,15 @@ pub fn areal_strategy() -> impl Strategy<Value = G> {
         "out of domain", |(mut r, g, m, kind)| counted((move || {
             r.kind = kind;
             let a = build_geom(&r, g, &[], None)?;
-            let a = apply_mat(&a, &m);
+            let mut a = apply_mat(&a, &m);
+            let jit = jitter_sel(r.flags);
+            if let Some(sel) = jit {
+                a = jitter(&a, sel);
+            }
             if in_relate_domain(&a) {
+                if jit.is_some() {
+                    GEN_JITTERED.fetch_add(1, std::sync::atomic::Ordering::Relaxed);
+                }
                 Some(a)
             } else {
                 None
@@ -518,14 +561,22 @@ pub fn scene_strategy(max_partners: usize) -> impl Strategy<Value = Scene> {
         "out of domain", |(ra, rbs, g, m)| counted((move || {
             let a0 = build_geom(&ra, g, &[], None)?;
             let pool = feature_pool(&a0);
-            let a = apply_mat(&a0, &m);
+            let jit = jitter_sel(ra.flags);
+            let post = |x: G| match jit {
+                Some(sel) => jitter(&x, sel),
+                None => x,
+            };
+            let a = post(apply_mat(&a0, &m));
             if !in_relate_domain(&a) {
                 return None;
+            }
+            if jit.is_some() {
+                GEN_JITTERED.fetch_add(1, std::sync::atomic::Ordering::Relaxed);
             }
             let mut partners = vec![];
             for rb in &rbs {
                 if let Some(b) = build_geom(rb, g, &pool, Some(&effective_cells(&ra, g))) {
-                    let b = apply_mat(&b, &m);
+                    let b = post(apply_mat(&b, &m));
                     if in_relate_domain(&b) {
                         partners.push(b);
                     }
@@ -562,9 +613,18 @@ pub fn areal_scene_strategy() -> impl Strategy<Value = ArealScene> {
             // line work: always biased to A's features (runs along the boundary, through vertices)
             rl.flags &= !1;
             let l0 = build_geom(&rl, g, &pool, None)?;
-            let (a, b, line) = (apply_mat(&a0, &m), apply_mat(&b0, &m), apply_mat(&l0, &m));
+            let (mut a, mut b, mut line) = (apply_mat(&a0, &m), apply_mat(&b0, &m), apply_mat(&l0, &m));
+            let jit = jitter_sel(ra.flags);
+            if let Some(sel) = jit {
+                a = jitter(&a, sel);
+                b = jitter(&b, sel);
+                line = jitter(&line, sel);
+            }
             if !in_relate_domain(&a) || !in_relate_domain(&b) || !in_relate_domain(&line) {
                 return None;
+            }
+            if jit.is_some() {
+                GEN_JITTERED.fetch_add(1, std::sync::atomic::Ordering::Relaxed);
             }
             Some(ArealScene { a, b, line })
         })()),
@@ -634,7 +694,12 @@ pub mod bytes {
             None => return Ok(None),
         };
         let pool = feature_pool(&a0);
-        let a = apply_mat(&a0, &m);
+        let jit = jitter_sel(ra.flags);
+        let post = |x: G| match jit {
+            Some(sel) => jitter(&x, sel),
+            None => x,
+        };
+        let a = post(apply_mat(&a0, &m));
         if !in_relate_domain(&a) {
             return Ok(None);
         }
@@ -642,7 +707,7 @@ pub mod bytes {
         for _ in 0..n {
             let rb = raw_geom(u)?;
             if let Some(b) = build_geom(&rb, g, &pool, Some(&effective_cells(&ra, g))) {
-                let b = apply_mat(&b, &m);
+                let b = post(apply_mat(&b, &m));
                 if in_relate_domain(&b) {
                     partners.push(b);
                 }
